@@ -33,6 +33,7 @@ func (o SeqOpt) apply() {
 	mxj.CastValuesToFloat(o.ToFloat)
 	mxj.CastValuesToBool(o.ToBool)
 	mxj.CastNanInf(o.NanInf)
+	bystanders()
 }
 
 // xseq cfg strconv rawtokens fin encEscape goEmpty doc ;dom <0|1>
@@ -64,6 +65,10 @@ func c04Exec(op string) string {
 		return "noroot " + enc(map[string]interface{}(m))
 	}
 	if err != nil {
+		if _, wf := tokenStream([]byte(doc)); wf && inDom {
+			// a document the tokenizer reads to its end is decoded, not rejected
+			return "err " + xmlErrKind(err) + " | - | the sequence decoder rejects a document the tokenizer accepts: " + oneLine(err.Error())
+		}
 		return "err " + xmlErrKind(err)
 	}
 	x, xerr := m.Xml()
@@ -157,6 +162,12 @@ func c04Judge(op, impl, model string) Verdict {
 		return v
 	}
 	ip, mp := splitModel(impl), splitModel(model)
+	if len(ip) == 3 && strings.HasPrefix(ip[0], "err") {
+		v.CorrOK = ip[0] == model
+		v.OracleFail = ip[2]
+		v.Sig = "xseq:decoder-rejects"
+		return v
+	}
 	if len(ip) < 2 {
 		v.CorrOK = impl == model
 		v.Tags = append(v.Tags, "xseq:"+strings.Fields(impl+" x")[0])
